@@ -164,6 +164,9 @@ func (s *Session) auth(o *Config) {
 // Attempt to resume session using stream management
 func (s *Session) resume(o *Config) bool {
 	if !s.Features.DoesStreamManagement() {
+		// No stream management on this stream: the old session cannot be continued here, and what gets bound
+		// next is another session. Its id and counters must not be presented on a later connection.
+		s.SMState = SMState{}
 		return false
 	}
 	if s.SMState.Id == "" {
